@@ -84,6 +84,9 @@ def float_op(proc: str, x: float, p: Dict[str, Any], ctx: Dict[str, Any], log: l
     if proc == "VBadWrite":
         log.append(("VBadWrite", {}))
         raise Fail("KeyError")  # write to an undeclared key
+    if proc == "VInterrupt":
+        log.append(("VInterrupt", {}))
+        raise Fail("KeyboardInterrupt")
     if proc == "VFail":
         log.append(("VFail", {}))
         raise Fail("ValueError")
